@@ -8,7 +8,8 @@ from pvc import core
 class Event(object):
   """One observable action of an opaque callback (event mode, DESIGN.md 3.5)."""
 
-  def __init__(self, kind, fn, args, kwargs=None, star=None, dstar=None):
+  def __init__(self, kind, fn, args, kwargs=None, star=None, dstar=None, heap=None):
+    self.heap = heap      # heap at the time of the event (contents of container arguments are compared)
     self.kind = kind      # 'call' | 'iter' | 'next' | 'log'
     self.fn = fn          # z3 U term or string label
     self.args = list(args)
